@@ -148,4 +148,3 @@ func cmdVerify(args []string) {
 	}
 	fmt.Printf("TOTAL %d/%d in %.1fs\n", totalOK, total, time.Since(start).Seconds())
 }
-
